@@ -46,6 +46,22 @@ fn check(text: &str) -> Vec<(&'static str, String)> {
             }
         }
     }
+    // every range between two character boundaries: the pair of its end points' positions, and back
+    let offs: Vec<usize> = text.char_indices().map(|(o, _)| o).chain(std::iter::once(text.len())).filter(|o| !RefLines::inside_crlf(text, *o)).collect();
+    for (k, &a) in offs.iter().enumerate() {
+        for &b in &offs[k..] {
+            let r = syntax::parser::TextRange::new(TextSize::from(a as u32), TextSize::from(b as u32));
+            let (ws, we) = (reference.position(text, a), reference.position(text, b));
+            match guard(|| lsp::to_proto::range(&li, r)) {
+                Err(p) => push(&mut out, "to-range-panic", format!("range {a}..{b}: {} at {}", p.message, p.location)),
+                Ok(got) => {
+                    if (got.start.line, got.start.character, got.end.line, got.end.character) != (ws.0, ws.1, we.0, we.1) {
+                        push(&mut out, "to-range", format!("range {a}..{b}: expected {ws:?}..{we:?}, got {:?}..{:?}", (got.start.line, got.start.character), (got.end.line, got.end.character)));
+                    }
+                }
+            }
+        }
+    }
     // position -> offset, including one column past every line end
     for line in 0..reference.lines.len() {
         let len16 = reference.line_len_utf16(text, line);
